@@ -273,7 +273,7 @@ def _ensemble_append(c, adv, erel, prog=None):
         lay = None
         if st is not None and isinstance(st.value, ast.Call) and U(st.value.func) == "concatenate" and st.value.args:
             lay = L.layout_of(st.value.args[0], st)
-        want = (("splice", f"[] if {attr} is None else [{attr}]"), ("each", ("iter", f"range({npar})"), f"{walker}.copy()"))
+        want = (("cond", f"{attr} is None", (), (("item", attr),)), ("each", ("iter", f"range({npar})"), f"{walker}.copy()"))
         if lay != want:
             why.append(f"{attr} is rebuilt from {show(lay)}; expected the existing {attr} followed by one copy of {walker} per iteration")
     return struct_ob("ensemble-append", qual(c, adv), not why,
